@@ -412,12 +412,15 @@ func prodHighThresholdFilter(usage *NodeUsage, threshold NodeThresholds) bool {
 }
 
 func filterNodes(nodeSelector *metav1.LabelSelector, nodes []*corev1.Node, processedNodes sets.String) ([]*corev1.Node, error) {
-	if nodeSelector == nil {
+	// a pool without nodeSelector selects every node; like any other pool it skips the nodes already balanced in this round
+	selector := labels.Everything()
+	if nodeSelector != nil {
+		var err error
+		if selector, err = metav1.LabelSelectorAsSelector(nodeSelector); err != nil {
+			return nil, err
+		}
+	} else if processedNodes.Len() == 0 {
 		return nodes, nil
-	}
-	selector, err := metav1.LabelSelectorAsSelector(nodeSelector)
-	if err != nil {
-		return nil, err
 	}
 	r := make([]*corev1.Node, 0, len(nodes))
 	for _, v := range nodes {
